@@ -265,11 +265,17 @@ def _relational_safe(b, conds):
         if X is None:
             return False
         y = st(y)
-        if (X, y) in below:
+        def is_below(t):
+            # t < len(X): established by the path, or t = start + offset with the offset found by position() from `start` on in X
+            t = st(t)
+            if (X, t) in below:
+                return True
+            return isinstance(t, tuple) and t[0] == 'bin' and t[1] == 'Add' and lib.found_offset_sum(t[2], t[3]) == X
+        if is_below(y):
             return True
         if isinstance(y, tuple) and y[0] == 'bin' and y[1] == 'Add':
             for p_, k_ in ((y[2], y[3]), (y[3], y[2])):
-                if lib.term_int(k_) == 1 and (X, st(p_)) in below:
+                if lib.term_int(k_) == 1 and is_below(p_):
                     return True
         return False
     x, y = st(x), st(y)
@@ -316,6 +322,39 @@ def _enumerate_index_below(body, idx, n):
         return False
     k = _array_len_of_term(body, src[2][0])
     return k is not None and k <= n
+
+
+def _body_sym(body):
+    cache = body.__dict__.get('_assert_sym')
+    if cache is None:
+        try:
+            s = lib.Sym(body, max_paths=3000)
+            s.run()
+            cache = s
+        except lib.Lost:
+            cache = False
+        body._assert_sym = cache
+    return cache
+
+
+def path_safe_call(body, block):
+    """path-sensitive discharge of a panic-capable slice call: `s.split_at(n)` with n the index `s.iter().position(..)` found
+    (n < s.len()) on every enumerated path through the site"""
+    cache = _body_sym(body)
+    if not cache:
+        return None
+    n = 0
+    for p in cache.paths:
+        for e in p.effects:
+            if e[0] != 'call' or e[3] != block:
+                continue
+            n += 1
+            if not (e[1] and e[1].startswith('core::slice::') and e[1].split('::')[-1] in ('split_at', 'split_at_mut') and len(e[2]) == 2):
+                return None
+            pc = lib.position_payload(e[2][1])
+            if pc is None or lib.strip_transparent(lib.iterated_slice(pc[2][0])) != lib.strip_transparent(e[2][0]):
+                return None
+    return 'on all %d paths through the site the split point is an index found by position() in the very slice that is split' % n if n else None
 
 
 def path_safe_assert(body, block):
@@ -443,6 +482,8 @@ def sites(ctx):
                     out.append({'body': body.path, 'block': i, 'kind': 'call', 'desc': 'const-safe:array-range', 'sp': t['sp'], 'macro': macro, 'auto': 'constant range within a fixed-size array'})
                 elif (PANIC_CALL_RX.search(path) or PANIC_CALL_RX.search(full)) and ranges.prove_site(body, i, t) is not None:
                     out.append({'body': body.path, 'block': i, 'kind': 'call', 'desc': 'range-safe:' + short(full), 'sp': t['sp'], 'macro': macro, 'auto': ranges.prove_site(body, i, t)})
+                elif (PANIC_CALL_RX.search(path) or PANIC_CALL_RX.search(full)) and path_safe_call(body, i) is not None:
+                    out.append({'body': body.path, 'block': i, 'kind': 'call', 'desc': 'range-safe:' + short(full), 'sp': t['sp'], 'macro': macro, 'auto': path_safe_call(body, i)})
                 elif PANIC_CALL_RX.search(path) or PANIC_CALL_RX.search(full):
                     a0 = producer(body, t['args'][0]) if t['args'] else ''
                     a1 = producer(body, t['args'][1]) if len(t['args']) > 1 else None
